@@ -248,6 +248,7 @@ fn age_strategy() -> BoxedStrategy<i64> {
         3 => 0i64..12_000_000_000,                              // straddles seconds and the 5 s mark
         3 => (0i64..2000, 0i64..1_000_000_000).prop_map(|(s, n)| s * 1_000_000_000 + n),
         3 => (0i64..100_000, 0i64..1_000_000_000).prop_map(|(s, n)| s * 1_000_000_000 + n), // hours
+        1 => -999i64..0,                                       // monotonic reading up to 999 ns before as_of
     ]
     .boxed()
 }
@@ -366,6 +367,17 @@ pub fn check_c05_case(case: &NowCase, env: &mut Env) -> Verdict {
             return v;
         }
     };
+    if age < 0 {
+        v.label("reading-just-before-as-of");
+        v.nontrivial = true;
+        if matches!(s1, NowOut::Err { kind: ErrKind::Causality, .. }) {
+            // where the tolerated blur ends is C14's subject
+            v.label("reading-just-before-as-of:causality-error");
+            return v;
+        }
+    }
+    // a reading just before as_of is either refused or treated as age 0: never a negative age
+    let age = age.max(0);
     let Some((hl, hh, e, l)) = half_widths(&s1, real) else {
         v.fail(format!("now() returned {:?} for a record and readings in the meaningful range", s1));
         return v;
@@ -429,7 +441,7 @@ impl Property for C05 {
     type Case = NowCase;
     const ID: &'static str = "C05";
     fn rule() -> String {
-        "cases = (record, realtime, monotonic, later monotonic) built by construction: bound log-uniform in [0,2^60) plus edges, drift < 1e9 ppb with edges, as_of any (sec,nsec) incl. nsec 0/999999999, age = mono-as_of by class (0, 1 ns, sub-tick, <1 s, <12 s, <2000 s, hours), void_after >= as_of+5 s, all three statuses, realtime independent of monotonic. Oracle: exact i128/rational arithmetic. Non-trivial: age>0 with a non-integer exact growth, or nsec parts non-zero on both timestamps, or a second boundary between as_of and mono. Distinct = distinct JSON encoding of the case.".into()
+        "cases = (record, realtime, monotonic, later monotonic) built by construction: bound log-uniform in [0,2^60) plus edges, drift < 1e9 ppb with edges, as_of any (sec,nsec) incl. nsec 0/999999999, age = mono-as_of by class (0, 1 ns, sub-tick, <1 s, <12 s, <2000 s, hours, and 1..999 ns *before* as_of: refused or treated as age 0, never a negative age), void_after >= as_of+5 s, all three statuses, realtime independent of monotonic. Oracle: exact i128/rational arithmetic. Non-trivial: age>0 with a non-integer exact growth, or nsec parts non-zero on both timestamps, or a second boundary between as_of and mono. Distinct = distinct JSON encoding of the case.".into()
     }
     fn assumptions() -> Vec<String> {
         vec![
@@ -483,7 +495,7 @@ fn c06_strategy() -> BoxedStrategy<StatusCase> {
         (0i64..((1i64 << 31) - 300_000), nsec_strategy(), void_extra_strategy()),
         (bound_strategy(), drift_ok_strategy(), any::<u32>(), 0i32..3),
         // landmark: 0 as_of, 1 as_of+5s, 2 void_after, 3 random position
-        (0u8..4, -2i64..3, 0i64..2_000_000_000_000),
+        (0u8..4, -2i64..3, prop_oneof![3 => 0i64..2_000_000_000_000, 2 => 0i64..100_000_000_000_000]),
         real_strategy(),
         prop::bool::weighted(0.12),
     )
@@ -561,7 +573,7 @@ impl Property for C06 {
     type Case = StatusCase;
     const ID: &'static str = "C06";
     fn rule() -> String {
-        "cases = record (stored status in {Unknown,Synchronized,FreeRunning}; void_after - as_of in {5 s, 5 s+1 ns, daemon shape (as_of.sec+1000,0), random >= 5 s}) x monotonic reading placed at a landmark (as_of, as_of+5 s, void_after) with offset -2..+2 ns, or at a random position; plus the full enumerated grid statuses x void shapes x landmarks x {-1,0,+1} ns. Oracle: the status table of the C06 statement evaluated in i128. Non-trivial: reading within 1 ns of a landmark, or stored status != Synchronized.".into()
+        "cases = record (stored status in {Unknown,Synchronized,FreeRunning}; void_after - as_of in {5 s, 5 s+1 ns, daemon shape (as_of.sec+1000,0), random >= 5 s}) x monotonic reading placed at a landmark (as_of, as_of+5 s, void_after) with offset -2..+2 ns, or at a random position up to 2000 s / up to 28 h after as_of; plus the full enumerated grid statuses x void shapes x landmarks x {-1,0,+1} ns. Oracle: the status table of the C06 statement evaluated in i128. Non-trivial: reading within 1 ns of a landmark, or stored status != Synchronized.".into()
     }
     fn cases(tier: Tier) -> u64 {
         match tier {
